@@ -108,6 +108,44 @@ class Report:
         if cond:
             self.broken.append(why)
 
+    # -- merging results computed in worker processes ----------------------
+    def export(self):
+        return {"violations": self.violations, "known_hits": self.known_hits, "unproved": self.unproved,
+                "rules": self.rules, "samples": self.samples, "configs": self.configs,
+                "units": sorted(self.units), "functions": self.functions, "notes": self.notes,
+                "broken": self.broken, "obligations": self.obligations, "discharged": self.discharged}
+
+    def merge(self, d):
+        for v in d["violations"] + d["known_hits"]:
+            self.violation(v["rule"], v["instance"], v["where"], v["message"],
+                           config=(v["configs"][0] if v["configs"] else None), detail=v.get("detail"))
+            for c in v["configs"][1:]:
+                self.violation(v["rule"], v["instance"], v["where"], v["message"], config=c)
+        nv = {}
+        for v in d["violations"] + d["known_hits"]:
+            nv[v["rule"]] = nv.get(v["rule"], 0) + 1
+        for rid, r in d["rules"].items():
+            mine = self.rules.setdefault(rid, {"desc": r.get("desc", ""), "instances": 0, "violations": 0})
+            if not mine.get("desc"):
+                mine["desc"] = r.get("desc", "")
+            add = r["instances"] - nv.get(rid, 0)
+            mine["instances"] += add
+            self.obligations += add
+            self.discharged += add - r.get("unproved", 0)
+            if r.get("unproved"):
+                mine["unproved"] = mine.get("unproved", 0) + r["unproved"]
+        self.unproved += d["unproved"]
+        for s in d["samples"]:
+            if len(self.samples) < 40:
+                self.samples.append(s)
+        for c in d["configs"]:
+            if c not in self.configs:
+                self.configs.append(c)
+        self.units.update(d["units"])
+        self.functions += d["functions"]
+        self.notes += d["notes"]
+        self.broken += d["broken"]
+
     # -- output ---------------------------------------------------------
     def finish(self):
         wall = time.time() - self.t0
